@@ -1119,6 +1119,8 @@ impl<T: Clone + Eq + Debug + Default> WrappedBlock<T> {
                         assert(0 <= kb <= tail@.len()); //@w
                         assert(split_idx == off(tail@, kb)); //@w
                         assert(wpos == wpos0 + sw(tail@.take(kb))); //@w
+                        // the piece is maximal: the character after it no longer fits on the line (C04: "cut into maximal pieces") //@w
+                        assert(!ovf ==> kb < tail@.len() && sw(tail@.take(kb + 1)) > ll0); //@w @C04 #hard_wrap_piece_is_maximal
                         lemma_split(chars, cpos, kb, tail@); //@w
                         axiom_string_len_bound(chars); //@w
                         if ovf { lemma_sw_take_succ(tail@, 0); assert(tail@.take(0) =~= Seq::<char>::empty()); } //@w
